@@ -48,7 +48,7 @@ from vlib.oracles import digest, fd5, relerr, rng_for
 PROPERTY = "C16"
 PROP_NO = 16
 RULE = ("case = history: (model class MOLGP|MOLGP2, semilocal mode, NLDF/SDMX blocks, normalisers, kernel layout "
-        "x | x+c | x+x | xc with modes SEP/NPOL/POL, kernel family, control-point reduction on/off, 3-8 systems x "
+        "x | x+c | c+x | x+x | xc | xc+x | c+x+x with modes SEP/NPOL/POL, kernel family, control-point reduction on/off, 3-8 systems x "
         "50-400 points (nspin 1/2/mixed, some > 10000 points), orbital-derivative data on/off) x reaction list "
         "(modes 0/2, counts incl. 0 / negative / fractional, noise | noise_factor | noise_rel_factor | weight, "
         "units) x operation sequence (store in chunks / re-store, add in chunks / duplicates, reset, fit with and "
@@ -121,7 +121,7 @@ def _gen_cfg(rng, tier, fragile=None, big=False):
     sdmx = bool(rng.random() < 0.3)
     if slmode in ("np", "ns") and not (nldf or sdmx):
         nldf = True
-    layout = _pick(rng, ["x", "x+c", "x+x", "xc"], [0.4, 0.35, 0.15, 0.1])
+    layout = _pick(rng, ["x", "x+c", "c+x", "x+x", "xc", "xc+x", "c+x+x"], [0.3, 0.2, 0.15, 0.1, 0.1, 0.08, 0.07])
     deriv = bool(rng.random() < 0.3)
     if fragile == "pol-deriv":
         gp, layout, deriv = "MOLGP", "x", True
@@ -176,6 +176,12 @@ def _gen_cfg(rng, tier, fragile=None, big=False):
         kernels = [kspec("x", xmode)]
     elif layout == "x+c":
         kernels = [kspec("x", xmode), kspec("c", cmode)]
+    elif layout == "c+x":  # kernel list order differs from the exchange-first order used internally
+        kernels = [kspec("c", cmode), kspec("x", xmode)]
+    elif layout == "xc+x":
+        kernels = [kspec("xc", "NPOL"), kspec("x", xmode)]
+    elif layout == "c+x+x":
+        kernels = [kspec("c", cmode), kspec("x", xmode), kspec("x", _pick(rng, ["SEP", "NPOL"]))]
     elif layout == "x+x":
         kernels = [kspec("x", xmode), kspec("x", _pick(rng, ["SEP", "NPOL"]))]
     else:
